@@ -1369,7 +1369,7 @@ class LangServer:
                 ast_old = file_obj.ast
                 if ast_old is not None:
                     for key in ast_old.global_dict:
-                        self.obj_tree.pop(key, None)
+                        self._remove_unit(key, filepath)
                 # Other files must not stay linked to the removed objects
                 self.link_version = (self.link_version + 1) % 1000
                 for _, tmp_file in self.workspace.items():
@@ -1394,6 +1394,20 @@ class LangServer:
                 file_obj.ast.resolve_links(self.obj_tree, self.link_version)
         if not self.disable_diagnostics:
             self.send_diagnostics(uri)
+
+    def _remove_unit(self, key: str, filepath: str):
+        """Remove a top-level unit of ``filepath`` from the object tree. A unit
+        that another file defines as well (it moved there, or was defined twice
+        for a while) belongs to that file afterwards."""
+        if self.obj_tree.get(key, [None, filepath])[1] != filepath:
+            return
+        self.obj_tree.pop(key, None)
+        for path, file_obj in self.workspace.items():
+            if path == filepath or file_obj.ast is None:
+                continue
+            if key in file_obj.ast.global_dict:
+                self.obj_tree[key] = [file_obj.ast.global_dict[key], path]
+                return
 
     def update_workspace_file(
         self,
@@ -1435,7 +1449,7 @@ class LangServer:
         ast_old = file_obj.ast
         if ast_old is not None:
             for key in ast_old.global_dict:
-                self.obj_tree.pop(key, None)
+                self._remove_unit(key, filepath)
         # Add new file to workspace
         file_obj.ast = ast_new
         if filepath not in self.workspace:
